@@ -663,5 +663,30 @@ def guard_to_if(prog, rng):
     return p
 
 
+def is_tame(prog, iterations=8, bound=10**5):
+    """False if some plain execution of the program makes a value explode (repeated squaring of a growing value):
+    Polar's fixed-point typer then computes with numbers of astronomically many digits for minutes"""
+    from . import refinterp
+    for q in (0.5, 0.9, 0.1):
+        g = refinterp.run(prog, iterations, 1)
+        try:
+            req = next(g)
+            while True:
+                req = g.send(q)
+        except StopIteration as st:
+            for run in st.value:
+                for state in run:
+                    for v in state.values():
+                        if abs(v) > bound:
+                            return False
+        except Exception:  # noqa
+            continue
+    return True
+
+
 def gen_c05_program(rng):
-    return C05Gen(rng).program()
+    for _ in range(6):
+        prog = C05Gen(rng).program()
+        if is_tame(prog):
+            return prog
+    return prog
